@@ -213,6 +213,7 @@ class Recorder(object):
 
 def run_shard(args):
     prop, part_name, tier, shard, nshards, n_cases, seed = args
+    os.environ['VERIF_TIER'] = tier
     mod = importlib.import_module('checks.' + CHECKS[prop])
     part = [p for p in mod.PARTS if p.name == part_name][0]
     rec = Recorder(prop, part, tier, shard)
@@ -312,6 +313,7 @@ def main(argv=None):
     a = ap.parse_args(argv)
     prop = a.prop.upper()
     seed = int(os.environ.get('VERIF_SEED', '1') or 1)
+    os.environ['VERIF_TIER'] = a.tier
     mod = importlib.import_module('checks.' + CHECKS[prop])
 
     if a.replay:
@@ -323,6 +325,8 @@ def main(argv=None):
         print('replay passes: %s' % a.replay)
         return 0
 
+    import warnings
+    warnings.filterwarnings('ignore')
     t0 = time.time()
     known = load_findings(prop)
     violations = []
@@ -330,6 +334,8 @@ def main(argv=None):
     # 1. committed regression replays
     rdir = os.path.join(VERIF, 'replays', 'regress')
     replays = sorted(f for f in (os.listdir(rdir) if os.path.isdir(rdir) else []) if f.startswith(prop + '-'))
+    if os.environ.get('VERIF_SKIP_REPLAYS'):        # sensitivity self-test: measure the generated search alone
+        replays = []
     for f in replays:
         msg = replay_file(mod, os.path.join(rdir, f))
         if msg:
